@@ -60,7 +60,8 @@ BOUNDS = {
     "assign_contract_two_conditions": "condition_domains.len() == 2",
     "range_table_contains_iff_inside_some_range_0": "0 recorded ranges, <= 1 open block; HashMap replaced by an association-list stand-in",
     "range_table_contains_iff_inside_some_range_1": "1 recorded range, <= 1 open block; HashMap replaced by an association-list stand-in",
-    "range_table_get_counts_enclosing_ranges_2": "2 recorded ranges (same or different files), <= 1 open block; HashMap replaced by an association-list stand-in",
+    "range_table_contains_iff_inside_some_range_2_same_file": "2 recorded ranges in one symbolic file, <= 1 open block; HashMap replaced by an association-list stand-in",
+    "range_table_contains_iff_inside_some_range_2_two_files": "2 recorded ranges in files 3 and 5, <= 1 open block; HashMap replaced by an association-list stand-in",
 }
 
 
